@@ -86,9 +86,9 @@ Section Proofs.
     - cbn [send_hashes steps_from]. fold (stopped stops).
       destruct (Nat.ltb_spec step size) as [Hlt|Hge]; cbn [andb]; [|reflexivity].
       destruct (stopped stops); cbn [negb]; [reflexivity|].
-      set (want := if (size - step <? Bn)%nat then (size - step)%nat else Bn).
+      set (want := if (N.of_nat (size - step) <? B)%N then (size - step)%nat else Bn).
       assert (Hwant : want = Nat.min (size - step) Bn).
-      { unfold want. destruct (Nat.ltb_spec (size - step) Bn); lia. }
+      { unfold want, Resume.Bn. destruct (N.ltb_spec (N.of_nat (size - step)) B); lia. }
       assert (Hlen : length (firstn want (skipn step src)) = want).
       { rewrite firstn_length, skipn_length. lia. }
       rewrite Hlen.
